@@ -3,5 +3,5 @@ CONSTANTS MaxSteps = 6
           SeedNames = {"num", "nan", "mixed", "ties"}
           Hist = TRUE
 INIT Init
-NEXT Next
+NEXT NextSim
 CONSTRAINT GenEmit
